@@ -401,3 +401,53 @@ Proof.
               split; [intros [e He]; discriminate | discriminate].
         -- split; [intros [e He]; discriminate | discriminate].
 Qed.
+
+(** * the text before the header only contributes its line feeds *)
+Lemma strip_prefix_app : forall p s, strip_prefix p (p ++ s) = Some s.
+Proof.
+  induction p as [|c p IH]; intros s; cbn [strip_prefix app]; [reflexivity|]. now rewrite N.eqb_refl.
+Qed.
+
+(* the header does not start anywhere inside the prefix [p] (it starts right after it) *)
+Definition header_not_before (p rest : str) : Prop :=
+  forall a b, p = a ++ b -> b <> [] -> strip_prefix header (b ++ rest) = None.
+
+Lemma split_once_hit : forall (h s r : str), strip_prefix h s = Some r -> split_once h s = Some ([], r).
+Proof. intros h s r H. destruct s; cbn [split_once]; now rewrite H. Qed.
+Lemma split_once_miss : forall (h : str) c s, strip_prefix h (c :: s) = None ->
+  split_once h (c :: s) = match split_once h s with Some (a, b) => Some (c :: a, b) | None => None end.
+Proof. intros h c s H. cbn [split_once]. now rewrite H. Qed.
+
+Lemma split_once_first : forall p body,
+  header_not_before p (header ++ body) -> split_once header (p ++ header ++ body) = Some (p, body).
+Proof.
+  induction p as [|c p IH]; intros body H.
+  - cbn [app]. apply split_once_hit. apply strip_prefix_app.
+  - assert (Hs : strip_prefix header (c :: (p ++ header ++ body)) = None).
+    { apply (H [] (c :: p)); [reflexivity | discriminate]. }
+    assert (Hrec : split_once header (p ++ header ++ body) = Some (p, body)).
+    { apply IH. intros a b Hab Hb. apply (H (c :: a) b); [now rewrite Hab | assumption]. }
+    change ((c :: p) ++ header ++ body) with (c :: (p ++ header ++ body)).
+    rewrite (split_once_miss _ _ _ Hs), Hrec. reflexivity.
+Qed.
+
+Theorem section_text_prefix : forall p body,
+  header_not_before p (header ++ body) ->
+  section_text (p ++ header ++ body) = Some (only_line_feeds p ++ body).
+Proof. intros p body H. unfold section_text. now rewrite (split_once_first p body H). Qed.
+
+(** two prefixes with the same number of line feeds give the same text to the deserializer:
+    carriage returns, a byte-order mark, comments, other tables ... before the header are irrelevant *)
+Corollary section_text_prefix_irrelevant : forall p p' body,
+  header_not_before p (header ++ body) -> header_not_before p' (header ++ body) ->
+  only_line_feeds p = only_line_feeds p' ->
+  section_text (p ++ header ++ body) = section_text (p' ++ header ++ body).
+Proof. intros p p' body H H' He. now rewrite !section_text_prefix, He. Qed.
+
+Lemma only_line_feeds_crlf : forall s, only_line_feeds (flat_map (fun c => if c =? line_feed then [13; line_feed] else [c]) s) = only_line_feeds s.
+Proof.
+  induction s as [|c s IH]; [reflexivity|]. cbn [flat_map]. unfold only_line_feeds in *. rewrite filter_app, IH.
+  destruct (c =? line_feed) eqn:He; cbn [filter app].
+  - apply N.eqb_eq in He. subst c. reflexivity.
+  - now rewrite He.
+Qed.
